@@ -174,7 +174,7 @@ def harness_facts(uni):
     return facts, npath
 
 
-def replay(cases, tag):
+def replay(cases, tag, sub="replay"):
     """Run the cases (list of dicts with at least key) through the real library.
     A case that kills the process (abort on allocation failure, double free, SIGSEGV)
     is recorded as {"abort": <status>} and the run continues after it."""
@@ -186,7 +186,7 @@ def replay(cases, tag):
     obs = [None] * len(cases)
     start = 0
     while start < len(cases):
-        p = sh([BIN, "replay", path, str(start)], timeout=3000)
+        p = sh([BIN, sub, path, str(start)], timeout=3000)
         last_started = None
         for line in p.stdout.splitlines():
             if not line.strip():
